@@ -25,17 +25,19 @@ class World:
         self.p = lw.Parameter(PV[1])
         self.circ = {}
         # A and B differ only in the herald photon number; C has its (0-photon) herald on a DIFFERENT mode
-        for name, n, hm in (("A", 0, 2), ("B", 1, 2), ("C", 0, 0)):
+        for name, n, hm in (("A", 0, 2), ("B", 1, 2), ("C", 0, 0), ("D", 0, 1)):
             c = lw.Circuit(3)
             c.bs(0, 1)
             c.ps(1, self.p)             # inside a Mach-Zehnder loop, so that the value is visible in the probabilities
             c.bs(0, 1)
             c.bs(1, 2, reflectivity=0.4)
-            c.loss(0, 0.2)
+            if name != "D":             # D is lossless: imperfect detection then produces states outside the ideal distribution's support
+                c.loss(0, 0.2)
             c.herald(n, hm)
             self.circ[name] = c
-        self.psx = lw.PostSelection()
+        self.psx = lw.PostSelection(multi_rules=True)
         self.psx.add(0, (0, 1))
+        self.n_mut = 0
         self.closures = {2: ps_factory(0), 3: ps_factory(1)}
         self.src = emu.Source(brightness=BRIGHT[1], purity=PURITY[1])        # the shared Source object S
         self.det = emu.Detector(efficiency=EFF[1])                          # the shared Detector object D
@@ -46,7 +48,11 @@ class World:
         self.circ[c].bs(0, 1, reflectivity=0.3)
 
     def mutate_ps(self):
-        self.psx.add(1, (1, 2))
+        self.n_mut += 1
+        if self.n_mut == 1:
+            self.psx.add(1, (0, 1, 2))      # a mode that had no rule
+        else:
+            self.psx.add(0, 0)              # a second rule on a mode that already has one (the set of modes with rules does not change)
 
     def mutate_aps(self):
         self.aps.add(1, 0)
@@ -109,6 +115,9 @@ def replay_behaviour(states, kind):
     script = []
     world = World()
     cfg = states[0]["cfg"]
+    w0 = states[0].get("w")
+    if isinstance(w0, dict) and w0.get("deff", 1) != 1:
+        world.det.efficiency = EFF[w0["deff"]]
     obj = None
     an = None
     if kind in ("sampler", "quick"):
